@@ -92,6 +92,12 @@ func c08Corpus() [][]c08seg {
 		{sD("@component", `"c"`, 0), sN("@slot", 2), sD("@for", "i = 0; i < 1; i++", 1), sP("i"), end, end, sD("@slot", `"n"`, 1), sD("@if", "a", 1), sT("x"), sN("@else", 0), sT("y"), end, end, end, sT(" tail")},
 		{sD("@if", "a", 1), sD("@insert", `"x"`, 1), sD("@if", "b", 1), sT("c"), end, end, end},
 		{sD("@each", "v in a", 1), sD("@component", `"c"`, 0), sN("@slot", 2), sD("@if", "v", 1), sP("v"), end, end, end, end},
+		// comments directly behind the @end of empty and non-empty blocks, behind @else, behind a component and a slot
+		{sD("@if", "true", 1), end, sC(" c "), sT("x")},
+		{sD("@each", "v in a", 1), end, sC(" c "), sD("@for", "i = 0; i < 1; i++", 1), end, sC(" d ")},
+		{sD("@if", "a", 1), sN("@else", 0), sC(" c "), end, sC(" e "), sD("@if", "b", 1), sT("t"), end, sC(" f ")},
+		{sD("@component", `"c"`, 0), sC(" c "), sT("\n"), sD("@component", `"c"`, 0), sN("@slot", 2), end, sC(" d "), end, sC(" e ")},
+		{sD("@insert", `"x"`, 1), end, sC(" c ")},
 	}
 }
 
@@ -185,7 +191,7 @@ func c08Check(cs c08Case) (ok bool, sig, expected, observed string) {
 			}
 		}
 		return true, "", expected, o.String()
-	case "page", "layout", "component":
+	case "page", "layout", "component", "layouts-dir", "components-dir":
 		t := c08Tree(cs.Seam, cs.Src)
 		t.write()
 		tpl, lo := t.load()
@@ -229,6 +235,14 @@ func c08Tree(seam, src string) Tree {
 		t.Files["comp.tw"] = src
 		t.Files["index.tw"] = `<p>@component("comp", {a: 1})</p>`
 		t.Files["other.tw"] = "other"
+	case "layouts-dir": // a file in the directory the ~ alias of @use points to, used by no page
+		t.Files["layouts/lonely.tw"] = src
+		t.Files["index.tw"] = "index"
+		t.Files["other.tw"] = "other"
+	case "components-dir":
+		t.Files["components/lonely.tw"] = src
+		t.Files["index.tw"] = "index"
+		t.Files["other.tw"] = "other"
 	}
 	return t
 }
@@ -238,7 +252,7 @@ func init() {
 		ID:    "C08",
 		Level: "exploration",
 		Rule: "bounded-exhaustive: every sequence of <=k lexemes of the full lexeme alphabet (joined with and without spaces) at the lexer, parser and EvaluateString seams; " +
-			"every byte prefix and every single-token deletion/duplication/adjacent swap of a corpus of annotated valid templates; short sequences also as page/layout/component file content through NewTemplate; trees whose files refer to each other in a cycle (components, layouts, self-reference). " +
+			"every byte prefix and every single-token deletion/duplication/adjacent swap of a corpus of annotated valid templates; short sequences also as page/layout/component file content, and as an unused file under layouts/ and components/, through NewTemplate; trees whose files refer to each other in a cycle (components, layouts, self-reference). " +
 			"Cases are enumerated without repetition; a case is non-trivial when it is not a well-formed template (it contains an unterminated/unbalanced construct, an illegal character, or is a must-reject prefix)",
 		Bounds: func(tier string) map[string]any {
 			if tier == "thorough" {
@@ -326,7 +340,7 @@ func c08Run(c *Ctx) {
 					c08Do(c, cs, int64(cut))
 				}
 				if c.Thorough() || cut%3 == 0 {
-					for _, seam := range []string{"page", "layout", "component"} {
+					for _, seam := range []string{"page", "layout", "component", "layouts-dir", "components-dir"} {
 						cs := c08Case{Mode: "prefix", Seam: seam, Src: full[:cut], MustReject: must, Why: why}
 						c08Do(c, cs, int64(cut))
 					}
@@ -498,7 +512,7 @@ func c08Run(c *Ctx) {
 		treeK = 2
 	}
 	for k := 1; k <= treeK; k++ {
-		if !run(c08Lexemes, k, []string{""}, []string{"page", "layout", "component"}, "tree") {
+		if !run(c08Lexemes, k, []string{""}, []string{"page", "layout", "component", "layouts-dir", "components-dir"}, "tree") {
 			return
 		}
 	}
